@@ -75,9 +75,13 @@ type ExecD struct {
 	DelaySteps int            `json:"delay_steps,omitempty"`
 	Stuck      map[int]bool   `json:"stuck,omitempty"`
 	Barrier    bool           `json:"barrier,omitempty"`
-	HoldTask   int            `json:"hold_task,omitempty"` // C11: task id+1 held until predicate WatchPred was evaluated
-	WatchPred  int            `json:"watch_pred,omitempty"`
-	CancelOrd  int            `json:"cancel_ord,omitempty"`
+	// BarrierN / BarrierSet: a barrier of BarrierN parties (0: the concurrency
+	// limit) among the task ids of BarrierSet (nil: every non-failing function).
+	BarrierN   int          `json:"barrier_n,omitempty"`
+	BarrierSet map[int]bool `json:"barrier_set,omitempty"`
+	HoldTask   int          `json:"hold_task,omitempty"` // C11: task id+1 held until predicate WatchPred was evaluated
+	WatchPred  int          `json:"watch_pred,omitempty"`
+	CancelOrd  int          `json:"cancel_ord,omitempty"`
 	// CtxKind 1: the directive gets a user-defined context.Context type
 	// (engine.UserCtx) instead of a standard cancel context.
 	CtxKind int `json:"ctx_kind,omitempty"`
@@ -457,9 +461,9 @@ func (h *hh) body(kind, id, ord int, ctx context.Context, startKind, endKind int
 	for k := 0; k < length; k++ {
 		sim.Yield(engine.HsStep)
 	}
-	if x.d.Barrier && outcome == progen.OK {
+	if x.d.Barrier && outcome == progen.OK && (x.d.BarrierSet == nil || (kind == 0 && x.d.BarrierSet[id])) {
 		sim.AddCounter(ctrBarrier(x.idx), 1)
-		sim.Hold(engine.HoldCounter, ctrBarrier(x.idx), x.limit())
+		sim.Hold(engine.HoldCounter, ctrBarrier(x.idx), x.barrierSize())
 	}
 	if kind == 0 && x.d.HoldTask == id+1 {
 		sim.Hold(engine.HoldFlag, flagPredSeen(x.idx), 0)
@@ -565,6 +569,13 @@ func panicEq(got, want any) bool {
 		return isRE && strings.Contains(re.Error(), "nil map")
 	}
 	return safeEq(got, want)
+}
+
+func (x *execRun) barrierSize() int {
+	if x.d.BarrierN > 0 {
+		return x.d.BarrierN
+	}
+	return x.limit()
 }
 
 func (x *execRun) limit() int {
@@ -1065,8 +1076,12 @@ func Exec(t *testing.T, d *Desc, replay, keepTrace bool, states map[uint64]struc
 		for _, c := range ed.Colls {
 			nevents += 2 * len(c.Vals)
 		}
+		nfail := 0
+		for _, c := range ed.Colls {
+			nfail += len(c.Fail)
+		}
 		x := &execRun{d: ed, parent: parent, prog: pr.P, fn: pr.Fn, r: r, token: new(int), events: make([]Ev, nevents),
-			memo: make([]memoEnt, 0, 512), states: make([]cff.SchedulerState, 256)}
+			memo: make([]memoEnt, 0, 512+2*nfail), states: make([]cff.SchedulerState, 256)}
 		for k := range x.em {
 			x.em[k] = make([]EmEv, 1024)
 		}
@@ -1115,7 +1130,7 @@ func Exec(t *testing.T, d *Desc, replay, keepTrace bool, states map[uint64]struc
 	if d.Prop == "C03" {
 		sim.CountEvery = 16
 	}
-	if d.Prop == "C03scale" || d.Prop == "C05scale" || d.Prop == "C10scale" || d.Prop == "C10scale8" || d.Prop == "C19scale" {
+	if d.Prop == "C03scale" || d.Prop == "C05scale" || d.Prop == "C08scale" || d.Prop == "C10scale" || d.Prop == "C10scale8" || d.Prop == "C19scale" {
 		sim.CountEvery = 1024
 	}
 	if replay {
